@@ -554,7 +554,7 @@ Section DocComplete.
     /\ forallb site_syntax_ok (vis_op_sites S D o ++ op_const_sites o) = true
     /\ exists t, sp_root S (op_type o) = Some t /\ is_object t = true.
   Proof.
-    intros Hin. unfold doc_fine_vis in Hfine. apply andb_true_iff in Hfine as [_ H]. rewrite forallb_forall in H.
+    intros Hin. unfold doc_fine_vis, doc_guard in Hfine. apply andb_true_iff in Hfine as [_ H]. rewrite forallb_forall in H.
     specialize (H o Hin). rewrite !andb_true_iff in H. destruct H as [[H1 H2] H3]. split; [exact H1|]. split; [exact H2|].
     destruct (sp_root S (op_type o)) as [t|]; [eauto | discriminate].
   Qed.
